@@ -146,24 +146,34 @@ func propC18(a *Analysis, r *Registry) {
 					r.Fail(rB, name+"/returns "+w.val, b.pos(fn), "no return of "+w.val+" exactly when "+w.when)
 				}
 			}
-			// word scan
+			// word scan: in Next itself, or in a helper whose result Next returns directly
 			found := false
-			for _, rt := range fc.Ctx.Returns() {
-				if fc.Ctx.LoopOf(rt.Block()) == nil && len(fc.loopPhis(fc.Val(rt.Results[0]))) == 0 {
-					continue
+			scanFCs := []*FC{fc}
+			for _, sfc := range fc.BoundCallees(1)[1:] {
+				for _, rt := range fc.Ctx.Returns() {
+					if c, ok := rt.Results[0].(*ssa.Call); ok && c.Common().StaticCallee() == sfc.Fn {
+						scanFCs = append(scanFCs, sfc)
+					}
 				}
-				v := fc.Val(rt.Results[0])
-				phs := fc.loopPhis(v)
-				if len(phs) != 1 {
-					continue
-				}
-				e := X.EnvFor(fn, "m", "i")
-				e.Vars["j"] = env.Vars["j"]
-				e.Set("bi", phs[0], nil)
-				if v.Equal(e.MustParse("32*bi+tz32(m.marks[bi])")) {
-					bi0, bin := fc.Recurrence(phs[0])
-					if bi0.Equal(e.MustParse("idiv(j,32)+1")) && bin.Equal(e.MustParse("bi+1")) {
-						found = true
+			}
+			for _, sfc := range scanFCs {
+				for _, rt := range sfc.Ctx.Returns() {
+					v := sfc.Val(rt.Results[0])
+					if sfc.Ctx.LoopOf(rt.Block()) == nil && len(sfc.loopPhis(v)) == 0 {
+						continue
+					}
+					phs := sfc.loopPhis(v)
+					if len(phs) != 1 {
+						continue
+					}
+					e := X.EnvFor(fn, "m", "i")
+					e.Vars["j"] = env.Vars["j"]
+					e.Set("bi", phs[0], nil)
+					if v.Equal(e.MustParse("32*bi+tz32(m.marks[bi])")) {
+						bi0, bin := sfc.Recurrence(phs[0])
+						if bi0.Equal(e.MustParse("idiv(j,32)+1")) && bin.Equal(e.MustParse("bi+1")) {
+							found = true
+						}
 					}
 				}
 			}
